@@ -6,6 +6,7 @@
 //   U              TrackerUdp + UdpRouter: real send_event(), datagrams delivered through real UDP sockets on
 //                  loopback, UdpRouter::event_read() called directly on the harness thread
 //   H              TrackerHttp::receive_done() on a reply body placed in the tracker's stream
+//   H2             the real TrackerHttp::send_event() with two address families, then up to two reply bodies
 // Every case runs under a watchdog (alarm): a call that blocks kills the process with "HANG".
 #include "config.h"
 #include "common/util.h"
@@ -28,7 +29,9 @@
 #include "torrent/system/thread.h"
 #include "download/available_list.h"
 #include "net/address_list.h"
+#include <curl/curl.h>
 #include "net/curl_get.h"
+#include "net/thread_net.h"
 #include "protocol/extensions.h"
 #include "thread_main.h"
 #include "tracker/thread_tracker.h"
@@ -152,8 +155,15 @@ struct Events {
     w->m_slot_enabled        = [] {};
     w->m_slot_disabled       = [] {};
   }
-  static std::string canon_msg(const std::string& m) {
-    if (m.rfind("Could not parse bencoded data", 0) == 0) return hex(std::string("parse"));
+  // "Could not parse bencoded data[: <sanitised dump>]" -> "parse" (also inside "<msg> /// <previous msg>")
+  static std::string canon_msg(std::string m) {
+    const std::string key = "Could not parse bencoded data";
+    size_t p = 0;
+    while ((p = m.find(key, p)) != std::string::npos) {
+      size_t e = m.find(" /// ", p);
+      m.replace(p, (e == std::string::npos ? m.size() : e) - p, "parse");
+      p += 5;
+    }
     return hex(m);
   }
 };
@@ -198,6 +208,39 @@ static std::string run_http(int event, const std::string& body) {
   if (t->m_data != nullptr) out += " data-still-open";
   t->m_data.reset();
   t->cleanup();
+  return out;
+}
+
+// the real send_event() on a non-numeric host name (IPv4 request started, IPv6 pending); the GET itself never
+// runs (the net thread object exists but is not started), the reply bodies are written into the tracker's stream
+static std::string run_http2(int event, const std::vector<std::string>& bodies) {
+  torrent::TrackerInfo info;
+  info.info_hash = *torrent::HashString::cast_from(g_info_hash);
+  info.url = "http://tracker.test:1/announce";
+  info.key = 7;
+  auto t = std::make_unique<torrent::TrackerHttp>(info);
+  Events evs;
+  evs.hook(t.get());
+  std::string out;
+  try {
+    t->send_event(torrent::tracker::TrackerParams{}, static_cast<torrent::tracker::TrackerState::event_enum>(event));
+    if (t->m_data == nullptr || t->m_next_family != AF_INET6) out = "SETUP-FAIL families";
+    for (auto& b : bodies) {
+      if (!out.empty() && out.rfind("SETUP", 0) == 0) break;
+      if (t->m_data == nullptr) { out += (out.empty() ? "" : ";") + std::string("no-request-open"); continue; }
+      size_t nev = evs.ev.size();
+      *t->m_data << b;
+      t->receive_done();
+      std::string e;
+      for (size_t k = nev; k < evs.ev.size(); k++) { if (!e.empty()) e += "+"; e += evs.ev[k]; }
+      if (e.empty()) e = t->m_data != nullptr ? "retry" : "silent";
+      out += (out.empty() ? "" : ";") + e;
+    }
+  } catch (torrent::internal_error& e) { out += std::string(";ERR:internal:") + e.what();
+  } catch (torrent::bencode_error& e) { out += ";ERR:bencode";
+  } catch (std::exception& e) { out += std::string(";ERR:other:") + e.what(); }
+  out += " | " + show_ts(t.get());
+  try { t->cleanup(); } catch (torrent::internal_error& e) { out += std::string(" cleanup-ERR:") + e.what(); t->state().m_flags |= torrent::tracker::TrackerState::flag_deleted; }
   return out;
 }
 
@@ -356,6 +399,8 @@ static bool g_runtime = false;
 static void need_runtime() {
   if (g_runtime) return;
   torrent::initialize_main_thread();
+  curl_global_init(CURL_GLOBAL_ALL);
+  torrent::ThreadNet::create_thread();      // created, never started: HttpStack::start_get only queues a callback
   torrent::ThreadTracker::create_thread();
   auto tt = torrent::ThreadTracker::thread_tracker();
   tt->udp_inet_router()->open(AF_INET);
@@ -400,6 +445,11 @@ int main() {
       } else if (t.size() >= 4 && t[0] == "U") {
         need_runtime();
         std::cout << run_udp(t) << "\n";
+      } else if (t.size() >= 3 && t[0] == "H2") {
+        need_runtime();
+        std::vector<std::string> bodies;
+        for (size_t i = 2; i < t.size(); i++) if (t[i] != "~") bodies.push_back(unhex(t[i]));
+        std::cout << run_http2(std::stoi(t[1]), bodies) << "\n";
       } else if (t.size() == 3 && t[0] == "H") {
         need_runtime();
         std::cout << run_http(std::stoi(t[1]), unhex(t[2])) << "\n";
